@@ -21,7 +21,11 @@ ID = 'C04'
 LEVEL = 'exploration'
 ANCHORS = ['CSSMatch.match_lang', 'CSSMatch.match_default', 'CSSMatch.match_indeterminate', 'CSSMatch.match_selectors',
            'CSSMatch.match_dir', 'CSSMatch.get_classes']
-RULE = ('histories of 6-30 calls (select, iselect, select_one, match, filter, closest; module functions and compiled '
+RULE = ('histories of 6-30 steps; a step is a call (select, iselect, select_one, match, filter, closest; module functions and compiled objects) '
+        'or an edit of the document by the caller between calls (set/delete attribute, insert submit button / checked radio / <meta> / '
+        'form, remove element, append text; the same edits are replayed on the pristine twin); 35% of the histories are themed (one '
+        'stateful pseudo-class queried repeatedly while exactly what it depends on is edited); '
+        'calls: (select, iselect, select_one, match, filter, closest; module functions and compiled '
         'objects) on one document, selectors biased to the memoising / state pseudo-classes (:lang with and without '
         '<meta>, :default, :indeterminate, :dir, :checked, :root) and to class/attribute selectors on string-valued '
         'class attributes, targets = document and random elements; documents = generated form documents (0-3 forms, '
@@ -152,6 +156,56 @@ def do_op(sv, op, sel, tgt, compiled, nsmap=None):
     return f(sel, tgt)
 
 
+def apply_edit(soup, ed):
+    """A caller's own change to the document between two queries (the same edit is applied to the pristine twin)."""
+    import bs4
+    action, idx, a, b = ed[:4]
+    among = ed[4] if len(ed) > 4 else None
+    els = els_of(soup)
+    if among:
+        els = [x for x in els if x.name == among] or els
+    if not els:
+        return
+    e = els[idx % len(els)]
+    if action == 'attr':
+        e[a] = b
+    elif action == 'delattr':
+        if a in e.attrs:
+            del e[a]
+    elif action == 'insert':
+        new = soup.new_tag(a)
+        for k, v in (b or {}).items():
+            new[k] = v
+        e.insert(0, new)
+    elif action == 'remove':
+        if e.parent is not None and not isinstance(e.parent, bs4.BeautifulSoup) and len(els) > 3:
+            e.extract()
+    elif action == 'text':
+        e.append(bs4.NavigableString(a))
+
+
+def gen_edit(rng):
+    r = rng.random()
+    idx = rng.randrange(10 ** 6)
+    if r < .35:
+        a = rng.choice(['checked', 'lang', 'dir', 'type', 'disabled', 'name', 'class', 'min', 'value', 'placeholder', 'required'])
+        b = {'lang': rng.choice(['en', 'de', '']), 'dir': rng.choice(['rtl', 'ltr', 'auto']), 'type': rng.choice(['submit', 'radio', 'checkbox', 'number', 'text']),
+             'name': rng.choice(['r', 'q']), 'class': rng.choice(['x', 'y x']), 'min': '3', 'value': rng.choice(['1', '9'])}.get(a, '')
+        return ('attr', idx, a, b, rng.choice([None, None, 'input', 'html', 'form']))
+    if r < .5:
+        return ('delattr', idx, rng.choice(['checked', 'lang', 'dir', 'type', 'disabled', 'name', 'class', 'href', 'required']), None,
+                rng.choice([None, 'input', 'html', 'meta']))
+    if r < .8:
+        tag, attrs, among = rng.choice([('input', {'type': 'submit'}, 'form'), ('button', {'type': 'submit'}, 'form'),
+                                        ('input', {'type': 'radio', 'name': 'r', 'checked': ''}, 'form'), ('input', {'type': 'radio', 'name': 'q', 'checked': ''}, None),
+                                        ('meta', {'http-equiv': 'content-language', 'content': 'de'}, 'head'), ('form', {}, None), ('p', {'lang': 'en'}, None),
+                                        ('span', {}, None), ('input', {'type': 'submit'}, None)])
+        return ('insert', idx, tag, attrs, among)
+    if r < .9:
+        return ('remove', idx, None, None)
+    return ('text', idx, rng.choice(['אב', 'abc', ' ']), None)
+
+
 def norm(r, index):
     """Result as indices (None / bool / list of element indices)."""
     if r is None or isinstance(r, bool):
@@ -169,7 +223,16 @@ def run_history(sv, rng, tops, how, steps, trap, stats):
     els = els_of(soup)
     index = {id(e): i for i, e in enumerate(els)}
     index[id(soup)] = 'doc'
+    edits_done = []
     for si, step in enumerate(steps):
+        if step[0] == 'edit':
+            apply_edit(soup, step[1])
+            edits_done.append(step[1])
+            els = els_of(soup)
+            index = {id(e): i for i, e in enumerate(els)}
+            index[id(soup)] = 'doc'
+            stats['edits'] = stats.get('edits', 0) + 1
+            continue
         op, sel, ti, compiled = step[:4]
         nsmap = step[4] if len(step) > 4 else None
         tgt = soup if ti is None or not els else els[ti % len(els)]
@@ -202,6 +265,8 @@ def run_history(sv, rng, tops, how, steps, trap, stats):
         # (a) pristine twin
         sv.purge()
         twin = trees.materialise(tops, how)
+        for ed in edits_done:
+            apply_edit(twin, ed)
         tels = els_of(twin)
         tindex = {id(e): i for i, e in enumerate(tels)}
         tindex[id(twin)] = 'doc'
@@ -232,7 +297,43 @@ def run_history(sv, rng, tops, how, steps, trap, stats):
     return out
 
 
-def gen_steps(rng, n_els, ns=False):
+THEMES = {
+    'default': ([':default', 'form :default', ':has(:default)', 'input:default', ':not(:default)'],
+                [('insert', 'input', {'type': 'submit'}, 'form'), ('insert', 'button', {'type': 'submit'}, 'form'), ('delattr', 'type', None, 'input'),
+                 ('attr', 'type', 'submit', 'input'), ('remove', None, None, 'input'), ('insert', 'form', {}, 'form'), ('remove', None, None, 'button')]),
+    'indeterminate': ([':indeterminate', 'input:indeterminate', ':not(:indeterminate)', ':checked', ':default'],
+                      [('insert', 'input', {'type': 'radio', 'name': 'r', 'checked': ''}, 'form'), ('insert', 'input', {'type': 'radio', 'name': 'q', 'checked': ''}, None),
+                       ('attr', 'checked', '', 'input'), ('delattr', 'checked', None, 'input'), ('attr', 'name', 'r', 'input'), ('attr', 'type', 'radio', 'input'),
+                       ('remove', None, None, 'input')]),
+    'lang': ([':lang(en)', ':lang("")', ':lang(de)', ':lang("*")', ':not(:lang(en))', ':root:lang(de)'],
+             [('attr', 'lang', 'en', 'html'), ('attr', 'lang', '', None), ('attr', 'lang', 'de', None), ('delattr', 'lang', None, 'html'), ('delattr', 'lang', None, None),
+              ('insert', 'meta', {'http-equiv': 'content-language', 'content': 'de'}, 'head'), ('remove', None, None, 'meta'), ('delattr', 'content', None, 'meta'),
+              ('attr', 'content', 'en', 'meta')]),
+    'dir': ([':dir(ltr)', ':dir(rtl)', ':not(:dir(ltr))'],
+            [('attr', 'dir', 'rtl', None), ('attr', 'dir', 'auto', None), ('attr', 'dir', 'ltr', 'html'), ('delattr', 'dir', None, None), ('delattr', 'dir', None, 'html'),
+             ('text', 'אב', None, None), ('text', 'abc', None, None)]),
+    'range': ([':in-range', ':out-of-range', ':not(:in-range)', ':placeholder-shown', ':read-write', ':enabled', ':disabled'],
+              [('attr', 'min', '3', 'input'), ('attr', 'max', '2020-06', 'input'), ('attr', 'value', '9', 'input'), ('attr', 'type', 'number', 'input'),
+               ('attr', 'type', 'month', 'input'), ('delattr', 'type', None, 'input'), ('attr', 'disabled', '', 'fieldset'), ('delattr', 'disabled', None, None),
+               ('attr', 'placeholder', 'p', 'input'), ('attr', 'readonly', '', 'input')]),
+}
+
+
+def gen_themed_steps(rng):
+    """Histories that keep asking about one stateful pseudo-class while the caller edits exactly what it depends on."""
+    sels_, edits = THEMES[rng.choice(sorted(THEMES))]
+    steps = []
+    for _ in range(rng.randint(6, 20)):
+        if steps and rng.random() < .4:
+            a, x, y, among = rng.choice(edits)
+            steps.append(('edit', (a, rng.randrange(10 ** 6), x, y, among)))
+        else:
+            op = 'select' if rng.random() < .7 else rng.choice(OPS)
+            steps.append((op, rng.choice(sels_), None if rng.random() < .7 else rng.randrange(10 ** 6), rng.random() < .3, None))
+    return steps
+
+
+def gen_steps(rng, n_els, ns=False, edits=True):
     cfg = sels.Cfg(p_id=.1, p_class=.3, p_attr=.25, p_struct=.2, p_more=.3)
     steps = []
     for _ in range(rng.randint(6, 30)):
@@ -244,6 +345,8 @@ def gen_steps(rng, n_els, ns=False):
             sel = rng.choice(NS_MEMO)
             nsmap = dict(NSMAP)
         steps.append((rng.choice(OPS), sel, None if rng.random() < .5 else rng.randrange(10 ** 6), rng.random() < .4, nsmap))
+        if edits and rng.random() < .15:
+            steps.append(('edit', gen_edit(rng)))
     return steps
 
 
@@ -260,7 +363,7 @@ def run_unit(u):
     try:
         for _ in range(u['n']):
             tops, how = gen_doc(rng)
-            steps = gen_steps(rng, 0, ns=how in ('xml', 'api-xml'))
+            steps = gen_themed_steps(rng) if rng.random() < .35 else gen_steps(rng, 0, ns=how in ('xml', 'api-xml'))
             stats = {}
             viol = run_history(sv, rng, tops, how, steps, trap, stats)
             for k, v in stats.items():
@@ -269,7 +372,7 @@ def run_unit(u):
             cn['how:' + how] = cn.get('how:' + how, 0) + 1
             res['evals'] += stats.get('calls', 0)
             for stp in steps[:6]:
-                sigs.add(sig(stp[0], stp[1], len(tops), how))
+                sigs.add(sig(stp[0], repr(stp[1]), len(tops), how))
             if viol:
                 cn['VIOL'] = cn.get('VIOL', 0) + 1
                 if len(res['viol']) < 6:
@@ -289,7 +392,7 @@ def run_unit(u):
                     if vv:
                         v = vv[0]
                     v.update({'tree': [t.to_json() for t in tops], 'how': how, 'steps': [list(s) for s in hist],
-                              'selector': hist[-1][1], 'markup': trees.describe(trees.materialise(tops, how), 500)})
+                              'selector': str(hist[-1][1]), 'markup': trees.describe(trees.materialise(tops, how), 500)})
                     res['viol'].append(v)
             elif len(res['samples']) < 1:
                 res['samples'].append({'how': how, 'history': [list(s) for s in steps[:8]],
@@ -309,7 +412,7 @@ def replay(w):
     trap = monitors.MutatorTrap()
     trap.install()
     try:
-        v = run_history(sv, random.Random(0), tops, w['how'], [tuple(s) for s in w['steps']], trap, {})
+        v = run_history(sv, random.Random(0), tops, w['how'], [(s[0], tuple(s[1])) if s[0] == 'edit' else tuple(s) for s in w['steps']], trap, {})
     finally:
         trap.uninstall()
     if not v:
